@@ -398,13 +398,35 @@ def job_hyp(col: Collector, seed: int, tier: str, shard: int, n: int, mode: str)
     hyp_run(col, seed * 1000 + shard, cases(mode), check, n)
 
 
-JOBS = {"hyp": job_hyp}
+def job_cuts(col: Collector, seed: int, tier: str, shard: int, nshards: int) -> None:
+    """one conversation with non-ASCII text in notification, result and error, the server's bytes cut at EVERY offset
+    (single cut) and at every pair of adjacent offsets (a one-byte read) on each carrier"""
+    text = "\u00e9\U0001F600\u2028\u65e5"
+    base = [
+        {"op": "tools/call", "notifs": 1, "text": text, "payload": {"k\u00e9": text, "n": None}, "reply": "result", "sse_order": "202-first"},
+        {"op": "resources/read", "notifs": 0, "text": text, "payload": {}, "reply": "error", "code": -32001, "sse_order": "event-first"},
+    ]
+    for mode in ("A", "B"):
+        for c in range(1, 700):
+            if c % nshards != shard:
+                continue
+            for cuts in ([c], [c, c + 1]):
+                steps = [dict(st_, cuts=cuts) for st_ in base]
+                if mode == "A":
+                    steps = [dict(st_, id=f"r{k}") for k, st_ in enumerate(steps)]
+                case = {"steps": steps, "pass": mode}
+                col.record(case, check(case))
+    if shard == 0:
+        col.exhaustive_parts.append("a two-step conversation with non-ASCII text: the server's bytes cut at every offset 1..699 (one cut; two adjacent cuts) on every carrier, both passes")
+
+
+JOBS = {"hyp": job_hyp, "cuts": job_cuts}
 
 
 def jobs(tier: str):
     if tier == "quick":
-        return [("hyp", {"shard": s, "n": 120, "mode": "A"}) for s in range(8)] + [("hyp", {"shard": 20 + s, "n": 80, "mode": "B"}) for s in range(8)]
-    return [("hyp", {"shard": s, "n": 700, "mode": "A"}) for s in range(8)] + [("hyp", {"shard": 20 + s, "n": 500, "mode": "B"}) for s in range(8)]
+        return [("hyp", {"shard": s, "n": 120, "mode": "A"}) for s in range(8)] + [("hyp", {"shard": 20 + s, "n": 80, "mode": "B"}) for s in range(8)] + [("cuts", {"shard": s, "nshards": 6}) for s in range(6)]
+    return [("hyp", {"shard": s, "n": 700, "mode": "A"}) for s in range(8)] + [("hyp", {"shard": 20 + s, "n": 500, "mode": "B"}) for s in range(8)] + [("cuts", {"shard": s, "nshards": 6}) for s in range(6)]
 
 
 def shrink(signature: str, seed: int):
